@@ -321,8 +321,16 @@ func tokenizeForSemantics(content string) []semanticToken {
 		}
 
 		length := uint32(lsputil.UTF16Len(tok.Value))
-		if tok.Type == parser.TokenComment {
-			length++
+		switch tok.Type {
+		case parser.TokenComment:
+			length++ // the leading ';' is not part of the value
+		case parser.TokenCode, parser.TokenCommodity:
+			// The lexeme has delimiters that are not part of the value: the
+			// parentheses of a code, the quotes of a quoted commodity. Measure
+			// the lexeme itself (columns count UTF-16 units).
+			if tok.End.Line == tok.Pos.Line && tok.End.Column > tok.Pos.Column {
+				length = uint32(tok.End.Column - tok.Pos.Column)
+			}
 		}
 
 		tokens = append(tokens, semanticToken{
